@@ -880,6 +880,17 @@ def apply_switches(specs, names, forms, built, allow_known):
         own_checkbox = form.get("optional", False) is True or form.get("groupOptional") is True
         if form.get("enabled", True) is False and not own_checkbox and not greyed:
             meta["unspecified"] = True  # disabled without any switch that could disable it
+    # a parameter driven by an unspecified one is unspecified too (its driver's state is what the round trip may settle
+    # either way)
+    for _ in range(n + 1):
+        grew = False
+        for name in names:
+            driver = forms[name].get("dependency")
+            if driver in built.meta and built.meta[driver]["unspecified"] and not built.meta[name]["unspecified"]:
+                built.meta[name]["unspecified"] = True
+                grew = True
+        if not grew:
+            break
     # stored value of a disabled parameter: either kept or emptied (both are what files contain)
     for i, spec in enumerate(specs):
         sw = spec.get("sw") or {}
@@ -969,7 +980,7 @@ def run_roundtrip(program: dict, res, pid: str = "C14"):
         try:
             out = ifile.write_ui_json(name="case.ui.json", path=str(out_dir))
         except Exception as exc:
-            res.fail(f"{pid}/write-raises/{where_raised(exc)}", f"write_ui_json raised {type(exc).__name__}: "
+            res.fail(tagged(built, None, f"{pid}/write-raises/{where_raised(exc)}"), f"write_ui_json raised {type(exc).__name__}: "
                                                                 f"{str(exc)[:300]}")
             return stats
         snap_mem = {k: snap(v) for k, v in (ifile.data or {}).items()}
@@ -992,6 +1003,11 @@ def run_roundtrip(program: dict, res, pid: str = "C14"):
         except Exception as exc:
             kinds = sorted({built.meta[n]["kind"] for n in form_names})
             culprit, culprit_name = blame_form(exc, built)
+            if culprit_name in built.meta and built.meta[culprit_name]["unspecified"] and (
+                    "Validation" in type(exc).__name__):
+                # the refusal concerns a parameter whose switches the documentation does not settle
+                res.label("read-refuses-unspecified-parameter")
+                return stats
             res.fail(tagged(built, culprit_name, f"{pid}/read-raises/{where_raised(exc)}/{culprit}"),
                      f"read_ui_json of the file just written raised {type(exc).__name__}: {str(exc)[:300]} "
                      f"(forms: {kinds})")
@@ -1120,13 +1136,13 @@ def run_edit_session(program, built, ifile, form_names, res, pid):
     try:
         out = ifile.write_ui_json(name="edited.ui.json", path=str(out_dir))
     except Exception as exc:
-        res.fail(f"{pid}/write-raises-after-edit/{where_raised(exc)}", f"{type(exc).__name__}: {str(exc)[:300]}")
+        res.fail(tagged(built, None, f"{pid}/write-raises-after-edit/{where_raised(exc)}"), f"{type(exc).__name__}: {str(exc)[:300]}")
         return
     try:
         again = InputFile.read_ui_json(out)
         data2 = again.data
     except Exception as exc:
-        res.fail(f"{pid}/read-raises-after-edit/{where_raised(exc)}", f"{type(exc).__name__}: {str(exc)[:300]}")
+        res.fail(tagged(built, None, f"{pid}/read-raises-after-edit/{where_raised(exc)}"), f"{type(exc).__name__}: {str(exc)[:300]}")
         return
     res.count("edited_parameters_compared", len(assigned))
     for name, (value, how, state) in assigned.items():
@@ -1142,6 +1158,9 @@ def tagged(built, name, sig: str) -> str:
     """Signature of a failing clause on parameter `name`; marks cases that contain the (deliberately
     allowed) trigger of a known finding so that those signatures do not hide anything else."""
     tags = built.known.get(name)
+    if name is None and built.known:
+        # the exception names no parameter: the file as a whole contains the allowed triggers
+        tags = set().union(*built.known.values())
     return f"{sig}/known:{'+'.join(sorted(tags))}" if tags else sig
 
 
